@@ -74,3 +74,15 @@ PROPS['C13'] = _srv('C13', 'Theorems (coq/props/C13.v), for arbitrary handler fu
                      'Coq proof (induction over the handler list with an invocation log; inductive characterisation of LoadPlugins) + differential correspondence with synthetic plugins through LoadPlugins and the capture hook + monitors')
 PROPS['C15'] = _srv('C15', 'Theorems (coq/props/C15.v), one per row of RFC 2131 4.1, for any handlers: dest4_relay (giaddr set: giaddr:67), dest4_nak (else NAK: broadcast:68 pinned), dest4_ciaddr (else ciaddr:68), dest4_bflag (else broadcast flag: broadcast:68 pinned), dest4_l2 (else link-level unicast on the bound interface, else the receiving one; with neither nothing is sent and nothing panics), dest4_port_and_pin (port 67 iff relayed; pinned iff destination is broadcast or link-local), pick_if_table, l2_frame_fields.',
                      'Coq proof (row-by-row characterisation of the destination cascade of the HandleMsg4 model) + differential correspondence over the whole addressing table through the capture hook + monitors')
+
+PROPS['C12'] = {
+    'props': 'props/C12.v', 'run_models': ['model/Server6Run.v'],
+    'trusted': ['modelled not verified: the insomniacslk/dhcp DHCPv6 codec and constructors (FromBytes, ToBytes, GetInnerMessage, NewAdvertiseFromSolicit, NewReplyFromMessage, NewRelayReplFromRelayForw, Options.GetOne/Add/Update) - models take the parsed packet as relay layers + innermost message; net.IP.IsLinkLocalUnicast; the kernel behind WriteTo',
+                'the capture hook server/verif_hook.go (build tag verif) incl. VerifListen6 opening a real socket through listen6'],
+    'assumes': ['theorems quantify over all parsed packets (any relay depth, any options) and arbitrary handler functions; that the datagram actually leaves on the pinned interface is outside the model; hop counts of Relay-Reply layers are recomputed, not mirrored (the property does not list them)'],
+    'level_text': 'Theorems (coq/props/C12.v), for any handlers: reply6_type_table (the basic response equals the literal RFC table over every message-type value, client-id presence and Rapid Commit), reply6_stub_carries (transaction id, client id; ADVERTISE iff SOLICIT without Rapid Commit; Rapid Commit echoed iff present), reply6_only_supported (a send happens only for a parsed packet with an innermost message of a supported type with a client id; it goes back to the source address and port and is pinned to the bound, else receiving, interface exactly when the source is link-local), reply6_matches_request (through identity-preserving handlers the reply carries xid, client id and the tabled type), relay_reply_mirrors (n Relay-Forward layers, any n, are answered by n Relay-Reply layers mirroring link-address, peer-address, Interface-ID and Remote-ID per layer and enclosing the answer; an outer layer that is not a Relay-Forward is not answered), direct_reply_unwrapped, listener_always_has_interface. The model is run against HandleMsg6 through the capture hook over all type bytes x client-id x Rapid Commit x relay depth 0..4 x source address class x listener/control message, nesting with odd shapes, random handler chains, malformed datagrams and real sockets opened through listen6.',
+    'level_note': 'Trusted: Coq kernel; hand-written Gallina model of HandleMsg6 tied to the code by the differential correspondence through the verif capture hook on every run; the DHCPv6 codec and reply constructors are a library (modelled, differentially tested). No axioms.',
+    'technique': 'Coq proof (type table by case analysis; relay mirroring by induction on the nesting depth; chain invariant) + differential correspondence through the capture hook + monitors',
+}
+
+PROPS['C13']['run_models'] = ['model/Server4Run.v', 'model/Server6Run.v']
